@@ -261,12 +261,13 @@ impl<'a> Exec<'a> {
         // ---- model refinement with attribution
         let mut v = Vec::new();
         refine(kind, data, spec.cfg, &obs, mst, msize, &mout, &mut v);
-        for p in [2usize, 6, 7, 8, 9, 10, 11, 14] {
+        for p in [2usize, 6, 7, 8, 9, 10, 11, 14, 17] {
             let relevant = match p {
                 6 => kind == Kind::Req,
                 7 => kind == Kind::Resp,
                 9 => kind == Kind::Chunk,
                 8 | 14 | 10 => kind != Kind::Chunk,
+                17 => false, // counted by M-store
                 _ => true,
             };
             if relevant {
@@ -291,7 +292,7 @@ impl<'a> Exec<'a> {
             m_store(kind, &obs, mc, &mut v);
             self.stats.evaluations[17] += 1;
         }
-        if self.on(19) && spec.alloc_mode != 0 {
+        if self.on(19) && spec.alloc_mode & 3 != 0 {
             m_alloc(&obs, &mut v);
             self.stats.evaluations[19] += 1;
         }
@@ -587,7 +588,11 @@ impl<'a> Exec<'a> {
         }
         let lf = data.iter().filter(|&&b| b == b'\n').count();
         let cap = lf + 4;
-        if cap > 400 || data.len() > 4096 {
+        if cap > 400 || data.len() > 300_000 {
+            return;
+        }
+        // long buffers: the search costs 4..162 re-parses of the whole buffer; sample them
+        if data.len() > 4096 && kind != Kind::Chunk && !self.rk.chance(1, 6) {
             return;
         }
         let sp = CallSpec { cap, ..*base };
@@ -1036,7 +1041,42 @@ impl<'a> Exec<'a> {
         let kind = t.kind;
         let mut decided: Option<(usize, Obs)> = None;
         let mut partial_fields: Vec<(usize, Obs)> = Vec::new();
-        for k in 0..=b.len() {
+        // every cut for ordinary heads; for long ones every cut near a structural byte, the first
+        // and last 64, and a seeded sample of the rest
+        let cuts: Vec<usize> = if b.len() <= 800 {
+            (0..=b.len()).collect()
+        } else {
+            let mut c: Vec<usize> = (0..64.min(b.len())).collect();
+            c.extend(b.len().saturating_sub(64)..=b.len());
+            let mut marks = 0;
+            for (i, &x) in b.iter().enumerate() {
+                if matches!(x, b' ' | b':' | b'\r' | b'\n' | b'\t') && marks < 60 {
+                    if i == 0 || !matches!(b[i - 1], b' ' | b':' | b'\r' | b'\n' | b'\t') {
+                        marks += 1;
+                        c.extend(i.saturating_sub(34)..(i + 36).min(b.len()));
+                    }
+                }
+            }
+            let mut r = Rng::new(t.knob_seed ^ 0xc0ffee);
+            for _ in 0..200 {
+                c.push(r.below(b.len() + 1));
+            }
+            if let Some(m) = self.t.conns[0].truth.first() {
+                // the cuts around the sender's head end are always looked at
+                for d in 0..3 {
+                    c.push((m.head_len + 1).saturating_sub(d).min(b.len()));
+                }
+            }
+            c.sort_unstable();
+            c.dedup();
+            if c.len() > 6000 {
+                let keep_tail: Vec<usize> = c[c.len() - 200..].to_vec();
+                c.truncate(5800);
+                c.extend(keep_tail);
+            }
+            c
+        };
+        for k in cuts {
             let place = match (k as u64 + t.knob_seed) % 4 {
                 0 | 1 => Place::END,
                 2 => Place { mode: Mode::Mid, align: ((k as u64 * 7 + t.knob_seed) % 64) as u8, tail: Tail::Future },
@@ -1052,7 +1092,9 @@ impl<'a> Exec<'a> {
             match &decided {
                 None => {
                     if o.st == St::Partial {
-                        partial_fields.push((k, o));
+                        if partial_fields.len() < 800 {
+                            partial_fields.push((k, o));
+                        }
                     } else {
                         // every start-line field reported with an earlier Partial has its final value
                         if o.st.is_complete() {
@@ -1156,6 +1198,12 @@ impl<'a> Exec<'a> {
                     if big.starts_with(&op.buf) {
                         // SAFETY: prefix of the stable region
                         pre = Some(unsafe { std::slice::from_raw_parts(*p as *const u8, op.buf.len()) });
+                    } else if !op.buf.is_empty() && op.buf.len() <= big.len() {
+                        // a window of it: same memory, later start
+                        if let Some(off) = big.windows(op.buf.len()).position(|w| w == &op.buf[..]) {
+                            // SAFETY: [off, off+len) lies inside the stable region
+                            pre = Some(unsafe { std::slice::from_raw_parts((*p as *const u8).add(off), op.buf.len()) });
+                        }
                     }
                 }
             }
@@ -1215,6 +1263,11 @@ impl<'a> Exec<'a> {
         }
         if self.t.backend != 0 {
             *self.stats.faults_fired.entry("backend_forced").or_insert(0) += 1;
+        }
+        match self.t.alloc_mode {
+            2 => *self.stats.faults_fired.entry("alloc_failure_injected").or_insert(0) += 1,
+            5 => *self.stats.faults_fired.entry("env_all_set_cold_cache").or_insert(0) += 1,
+            _ => {}
         }
     }
 
